@@ -13,7 +13,8 @@ RULE = ('cases: the C01 construction (molecule model x partition x rendering) in
         'fine graph is isomorphic to the model (= the disjoint description of the same partition, which is '
         'resolved as a metamorphic twin), the number of heavy atoms equals the number of fragment atoms minus the '
         'number of shared pairs, each merged atom lists both coarse nodes in fragid and appears in both coarse '
-        'graphs. non-trivial = >=1 shared pair; distinct = string')
+        'graphs; when the fragment block holds at most one descriptor pair per kind the string is also resolved under '
+        'the label-insensitive convention, once as written and once with every label rewritten at random. non-trivial = >=1 shared pair; distinct = string')
 ASSUMPTIONS = ['both copies of a shared atom are written with the same element, charge and hydrogen count']
 
 
@@ -54,7 +55,15 @@ def gen(R, tier):
         feats.add('also_label_insensitive')
         if fb.count('[!') == 2 and (fb.count('[$') == 2 or fb.count('[>') == 1):
             feats.add('label_insensitive_mixed_kinds')
-    return dict(legacy_false_ok=unambiguous, input=s, twin=twin, model=m.to_json(), nshared=info['nshared'], natoms=info['natoms'],
+    li = None
+    if unambiguous:
+        # under the label-insensitive convention only the symbol kind counts: every written label may change
+        import re
+        head, tail = s.split('}.{', 1)
+        li = head + '}.{' + re.sub(r'\[([!$<>])(\w*)\]', lambda mo: '[%s%s]' % (mo.group(1), R.choice(['', 'p', 'q7', 'Zz', mo.group(2)])), tail)
+        if li != s:
+            feats.add('label_insensitive_relabelled')
+    return dict(legacy_false_ok=unambiguous, input_li=li, input=s, twin=twin, model=m.to_json(), nshared=info['nshared'], natoms=info['natoms'],
                 nfr=info['nfr'], features=sorted(feats))
 
 
@@ -75,6 +84,9 @@ def oracle(case):
     if case.get('legacy_false_ok'):
         _, fine3 = sut(resolve, case['input'], legacy=False)
         check_molecule(fine3, model_g, 'overlapping description, label-insensitive convention')
+        if case.get('input_li') and case['input_li'] != case['input']:
+            _, fine4 = sut(resolve, case['input_li'], legacy=False)
+            check_molecule(fine4, model_g, 'label-insensitive convention, labels rewritten (%s)' % case['input_li'])
     _, fine2 = sut(resolve, case['twin'])
     check_molecule(fine2, model_g, 'disjoint description')
     merged = [n for n, d in fine.nodes(data=True) if len(d.get('fragid', [])) > 1 and d.get('element') != 'H']
